@@ -237,6 +237,44 @@ func extra11C05(c *Ctx) {
 				in = true
 			}
 		}
+		if !in {
+			// the if / tagless-switch spelling: a branch whose condition compares Kind()
+			isKind := func(e ast.Expr) bool {
+				found := false
+				ast.Inspect(e, func(m ast.Node) bool {
+					switch x := m.(type) {
+					case *ast.CallExpr:
+						if strings.HasSuffix(core.CalleeName(info, x), "tensorBase.Kind") {
+							found = true
+						}
+					case *ast.Ident:
+						if v, isV := info.Uses[x].(*types.Var); isV {
+							if rhs, _, cnt := singleDef(info, f.Body, v); cnt == 1 && rhs != nil {
+								if call, isC := ast.Unparen(rhs).(*ast.CallExpr); isC && strings.HasSuffix(core.CalleeName(info, call), "tensorBase.Kind") {
+									found = true
+								}
+							}
+						}
+					}
+					return !found
+				})
+				return found
+			}
+			for _, anc := range ancestorsOf(f.Body, id) {
+				switch x := anc.(type) {
+				case *ast.IfStmt:
+					if isKind(x.Cond) && (within(x.Body, id) || (x.Else != nil && within(x.Else, id))) {
+						in = true
+					}
+				case *ast.CaseClause:
+					for _, e := range x.List {
+						if isKind(e) {
+							in = true
+						}
+					}
+				}
+			}
+		}
 		c.Check(rule, f.Key()+" writer used only under a case of Kind()", c.Pos(id), in, "the writer is used outside the switch on Kind(): what is written there is not tied to the recorded tensor kind")
 		return true
 	})
@@ -247,7 +285,7 @@ func extra11C05(c *Ctx) {
 
 func extra11C19(c *Ctx) {
 	rule := "C19-R12"
-	c.Rule(rule, "the handler hands chatPrompt the whole conversation: in ChatHandler the messages argument of chatPrompt is a local that is only ever grown — each of its assignments is an append whose base is a message list field, a literal or the local itself and whose further operands are literals or spreads of such lists, one of them the request's Messages — and it is given to no other call; dropping turns before the call (say the ones without text, which may carry images) removes retained messages and renumbers the images behind them")
+	c.Rule(rule, "the handler hands chatPrompt the whole conversation: in ChatHandler the messages argument of chatPrompt is a local that is only ever grown — each of its assignments is an append (or slices.Concat) whose base is a message list field, a literal or the local itself and whose further operands are literals or spreads of such lists, one of them the request's Messages — and it is given to no other call; dropping turns before the call (say the ones without text, which may carry images) removes retained messages and renumbers the images behind them")
 	f := c.Fn(rule, "server", "Server.ChatHandler")
 	if f == nil {
 		return
@@ -294,6 +332,21 @@ func extra11C19(c *Ctx) {
 					ok := false
 					why := "assignment is not an append of message lists"
 					if len(x.Rhs) == len(x.Lhs) {
+						if ac, isC := ast.Unparen(x.Rhs[i]).(*ast.CallExpr); isC && core.CalleeName(info, ac) == "slices.Concat" && len(ac.Args) >= 1 {
+							// slices.Concat(list, list, ...): the same growth, spelled without append
+							ok = true
+							for _, a := range ac.Args {
+								if !isList(a) {
+									ok = false
+									why = "an operand of slices.Concat is not a message list field, a literal or the local"
+								}
+								if se, isSel := ast.Unparen(a).(*ast.SelectorExpr); isSel {
+									if t := info.TypeOf(se.X); t != nil && strings.HasSuffix(strings.TrimPrefix(t.String(), "*"), "api.ChatRequest") {
+										sawReq = true
+									}
+								}
+							}
+						}
 						if ac, isC := ast.Unparen(x.Rhs[i]).(*ast.CallExpr); isC && core.CalleeName(info, ac) == "builtin.append" && len(ac.Args) >= 1 && isList(ac.Args[0]) {
 							ok = true
 							for k, a := range ac.Args[1:] {
@@ -322,11 +375,15 @@ func extra11C19(c *Ctx) {
 					return true
 				}
 				name := core.CalleeName(info, x)
-				if name == "builtin.append" || name == "builtin.len" {
+				if name == "builtin.append" || name == "builtin.len" || name == "slices.Concat" {
 					return true
 				}
 				for _, a := range x.Args {
-					if core.UsesObj(info, a, msgs) {
+					direct := isIdentOf(info, a, msgs)
+					if se, isSl := ast.Unparen(a).(*ast.SliceExpr); isSl && isIdentOf(info, se.X, msgs) {
+						direct = true
+					}
+					if direct {
 						c.Check(rule, f.Key()+" messages local given to no other call", c.Pos(x), false, "the messages local is handed to "+name+", which may drop or reorder turns")
 					}
 				}
